@@ -20,8 +20,178 @@ def term(p, snaps):
     return "(trace_ok %s %s %s && forallb (@wfb QIops) %s)" % (ops, prog.c_sm(snaps[0]), obs, obs)
 
 
+# ---------------------------------------------------------------- real operators (n-D, float, D, X, truncation)
+HEADER2 = prog.HEADER + "From EPG Require Import Wf WfNd.\n"
+
+
+def q(x):
+    return "(Q2Qc %s)" % core.qlit(x)
+
+
+def gen_real(rng):
+    """a program of real epgpy operators, described by constructor expressions (evaluated with `epg` in scope)"""
+    fam = rng.choice(["1d", "nd", "nd", "float", "xchg", "diffusion", "trunc", "trunc"])
+    ops, init, opts = [], "epg.StateMatrix()", {}
+
+    def rf():
+        return "epg.T(%s, %s)" % (rng.choice([20, 45, 90, 120, 160]), rng.choice([0, 30, 90, 200]))
+
+    def relax():
+        return "epg.E(%s, %s, %s, %s)" % (rng.choice([2, 5, 10]), rng.choice([400, 1000]), rng.choice([30, 80]), rng.choice([0, 0.01, -0.03]))
+    n = rng.randint(3, 9)
+    if fam == "trunc":
+        # build up phase states without a cap, then shift with a cap below the extent already reached
+        nd = rng.random() < 0.7
+        dim = rng.choice([1, 2, 3])
+
+        def sh(extra=""):
+            if not nd:
+                return "epg.S(%d%s)" % (rng.choice([1, 1, 2, -1]), extra)
+            v = [rng.choice([1, 0, -1]) for _ in range(dim)]
+            v[0] = v[0] or 1
+            return "epg.S(np.array(%s)%s)" % (v, extra)
+        for _ in range(rng.randint(2, 4)):
+            ops += [rf(), sh(), relax()]
+        ops += [rf(), sh(", nmax=%d" % rng.choice([1, 2]))]
+        if rng.random() < 0.5:
+            ops += [rf(), sh()]
+    elif fam == "1d":
+        if rng.random() < 0.4:
+            init = "epg.StateMatrix(max_nstate=%d)" % rng.choice([1, 2, 3])
+        for _ in range(n):
+            k = rng.choice(["rf", "rf", "relax", "shift", "shift", "shift", "reset", "pd", "spoil"])
+            if k == "rf": ops.append(rf())
+            elif k == "relax": ops.append(relax())
+            elif k == "shift":
+                ops.append("epg.S(%d%s)" % (rng.choice([1, 2, 3, -1, -2]), rng.choice(["", "", ", nmax=%d" % rng.choice([1, 2, 4])])))
+            elif k == "reset": ops.append("epg.RESET")
+            elif k == "pd": ops.append("epg.PD(%s, reset=%s)" % (rng.choice([0.5, 2, 3]), rng.choice([True, False])))
+            else: ops.append("epg.SPOILER")
+    elif fam == "nd":
+        dim = rng.choice([1, 2, 3])
+        batched = rng.random() < 0.3
+        for _ in range(n):
+            k = rng.choice(["rf", "rf", "relax", "shift", "shift", "shift", "shift", "reset", "pd"])
+            if k == "rf": ops.append(rf())
+            elif k == "relax": ops.append(relax())
+            elif k == "shift":
+                def vec():
+                    v = [rng.choice([0, 1, -1, 2]) for _ in range(dim)]
+                    if not any(v): v[0] = 1
+                    return v
+                kv = [vec(), vec()] if batched else [vec()]
+                extra = rng.choice(["", "", ", nmax=%d" % rng.choice([1, 2, 3]), ", prune=%s" % rng.choice([0, 1e-8, 1e-2])])
+                ops.append("epg.S(np.array(%s)%s)" % (kv if batched else kv[0], extra))
+            elif k == "reset": ops.append("epg.RESET")
+            else: ops.append("epg.PD(%s, reset=%s)" % (rng.choice([0.5, 2]), rng.choice([True, False])))
+    elif fam == "float":
+        dim = rng.choice([1, 2, 3])
+        init = "epg.StateMatrix(kgrid=%s)" % rng.choice([0.25, 1.0, 3.0])
+        for _ in range(n):
+            k = rng.choice(["rf", "rf", "relax", "shift", "shift", "shift", "reset"])
+            if k == "rf": ops.append(rf())
+            elif k == "relax": ops.append(relax())
+            elif k == "shift":
+                v = [rng.choice([0.5, 1.0, -1.25, 2.0, 0.75]) for _ in range(dim)]
+                ops.append("epg.S(np.array(%s)%s)" % (v, rng.choice(["", "", ", prune=%s" % rng.choice([0, 1e-3])])))
+            else: ops.append("epg.RESET")
+    elif fam == "xchg":
+        init = "epg.StateMatrix(shape=(2,))"
+        for _ in range(n):
+            k = rng.choice(["rf", "rf", "shift", "shift", "x", "x", "reset"])
+            if k == "rf": ops.append(rf())
+            elif k == "shift": ops.append(rng.choice(["epg.S(1)", "epg.S(-1)", "epg.S(2, nmax=2)", "epg.S(np.array([1, 0, 1]))"]))
+            elif k == "x":
+                ops.append("epg.X(%s, %s, T1=%s, T2=%s, g=%s)" % (rng.choice([2, 5, 20]), rng.choice([0.01, 0.1]),
+                           rng.choice(["None", "[1000, 300]"]), rng.choice(["None", "[80, 20]"]), rng.choice(["None", "[0, 0.03]", "[-0.02, 0.05]"])))
+            else: ops.append("epg.RESET")
+    else:  # diffusion
+        dim = rng.choice([1, 3])
+        for _ in range(n):
+            k = rng.choice(["rf", "rf", "shift", "shift", "d", "d", "relax"])
+            if k == "rf": ops.append(rf())
+            elif k == "relax": ops.append(relax())
+            elif k == "shift":
+                if dim == 1: ops.append("epg.S(%d)" % rng.choice([1, 2, -1]))
+                else: ops.append("epg.S(np.array(%s))" % [rng.choice([0, 1, -1, 2]) or 1 for _ in range(3)])
+            else:
+                ops.append("epg.D(%s, %s)" % (rng.choice([5, 20]), rng.choice([1.0, 2.5])))
+    return {"family": fam, "init": init, "ops": ops}
+
+
+def run_real(p):
+    import numpy as np
+    import epgpy as epg
+    env = {"epg": epg, "np": np}
+    sm = eval(p["init"], env)
+    snaps = []
+    for o in p["ops"]:
+        sm = eval(o, env)(sm, inplace=True)
+        st = np.array(sm.states); eq = np.array(sm.equilibrium)
+        co = None if sm.coords is None else np.array(sm.coords)
+        B = st.shape[:-2]
+        stf = st.reshape((-1,) + st.shape[-2:]); eqf = np.broadcast_to(eq, st.shape).reshape(stf.shape)
+        cof = None
+        if co is not None:
+            cof = np.broadcast_to(co, B + co.shape[-2:]).reshape((-1,) + co.shape[-2:]) if co.ndim >= 2 else None
+        consistent = (st.shape[:-2] == tuple(sm.shape)) and st.shape[-2] == 2 * sm.nstate + 1 and eq.shape[-2] == st.shape[-2] \
+            and (co is None or co.shape[-2] == st.shape[-2])
+        snaps.append((o, stf, eqf, cof, consistent))
+    return snaps
+
+
+def real_term(stf, eqf, cof, b):
+    stc = core.clist([prog.c_triple(r) for r in stf[b].tolist()])
+    eqc = core.clist([prog.c_triple(r) for r in eqf[b].tolist()])
+    if cof is None:
+        coc = "None"
+    else:
+        coc = "(Some %s)" % core.clist([core.clist([q(float(x)) for x in row]) for row in cof[b].tolist()])
+    return "(wfb_obs (Q2Qc (1 # 100000000000)) %s %s %s)" % (stc, eqc, coc)
+
+
+def run_real_stream(ctx, n):
+    terms, meta = [], []
+    fams = {}
+    for i in range(n):
+        p = gen_real(ctx.rng)
+        fams[p["family"]] = fams.get(p["family"], 0) + 1
+        try:
+            snaps = run_real(p)
+        except Exception as e:
+            ctx.report("implementation raised %s on a valid program: %s" % (type(e).__name__, str(e)[:200]), {"real_case": p},
+                       found_input=True, signature={"raises": type(e).__name__, "family": p["family"]})
+            continue
+        ctx.count(("real", p["ops"], p["init"]), nontrivial=True)
+        if i < 3:
+            ctx.sample({"real_program": p})
+        for step, (o, stf, eqf, cof, consistent) in enumerate(snaps):
+            if not consistent:
+                ctx.report("state count / shape of states, equilibrium, coords and sm.shape disagree after %s" % o,
+                           {"real_case": dict(p, ops=p["ops"][:step + 1])}, found_input=True, signature={"op": o.split("(")[0], "why": "shape"})
+                break
+            # evaluate the predicate on the last step of every program and on a random earlier one
+            if step == len(snaps) - 1 or ctx.rng.random() < 0.35:
+                for b in range(min(stf.shape[0], 2)):
+                    terms.append(real_term(stf, eqf, cof, b))
+                    meta.append((p, step, o))
+    verdicts, errors = ctx.run_bool_cases("real", HEADER2, terms, chunk=12)
+    for e in errors:
+        ctx.report("wf-predicate shard failed to evaluate", {"theorem_or_correspondence": "C08 wfb_obs on observed arrays", "coq_output": e}, found_input=False)
+    seen = set()
+    for (p, step, o), v in zip(meta, verdicts):
+        if v is False and id(p) not in seen:
+            seen.add(id(p))
+            ctx.report("state after %s is not well-formed (conjugate symmetry / equilibrium / coordinates)" % o,
+                       {"real_case": dict(p, ops=p["ops"][:step + 1])}, found_input=True,
+                       signature={"op": o.split("(")[0], "family": p["family"], "why": "wfb_obs"})
+    ctx.cov["real_operator_families"] = fams
+    ctx.cov["wfb_obs_evaluations"] = len(terms)
+
+
 def run(ctx):
     proved = ctx.prove(gen=False)
+    run_real_stream(ctx, 60 if ctx.tier == "quick" else 1500)
     n = 120 if ctx.tier == "quick" else 2000
     cases = gen_cases(ctx, n)
     terms, kept = [], []
@@ -88,6 +258,17 @@ def np_eq(a, b):
 
 
 def replay(ctx, rp):
+    if "real_case" in rp:
+        n0 = len(ctx.violations)
+        p = rp["real_case"]
+        snaps = run_real(p)
+        o, stf, eqf, cof, consistent = snaps[-1]
+        terms = [real_term(stf, eqf, cof, b) for b in range(min(stf.shape[0], 2))]
+        v, errs = ctx.run_bool_cases("replay", HEADER2, terms, chunk=12)
+        ctx.cleanup_cases()
+        bad = (not consistent) or any(x is False for x in v)
+        print("replay: VIOLATION reproduced" if bad else "replay: final state well-formed")
+        return 1 if bad else 0
     p = rp["case"]
     import numpy as np
     snaps = prog.run_impl(p, inplace=p.get("inplace", True))
